@@ -9468,6 +9468,14 @@ func (lc *LightningChannel) UpdateFee(feePerKw chainfee.SatPerKWeight) error {
 		return fmt.Errorf("local fee update as non-initiator")
 	}
 
+	// A fee rate below the fee floor would be refused by the sanity check
+	// of every commitment that evaluates it, which would leave the channel
+	// unable to add HTLCs or sign until the entry is replaced.
+	if feePerKw < chainfee.FeePerKwFloor {
+		return fmt.Errorf("cannot apply fee_update=%v, below fee "+
+			"floor %v", feePerKw, chainfee.FeePerKwFloor)
+	}
+
 	// Ensure that the passed fee rate meets our current requirements.
 	if err := lc.validateFeeRate(feePerKw); err != nil {
 		return err
